@@ -148,14 +148,14 @@ class NUTS(Sampler):
         epsilon, epsilon_bar = None, None
 
         # parameters dual averaging
-        if (self.adapt_step_size == True):
+        if (self.adapt_step_size is True):
             epsilon = self._FindGoodEpsilon(theta[:, 0], joint_eval[0], grad)
             mu = np.log(10*epsilon)
             gamma, t_0, kappa = 0.05, 10, 0.75 # kappa in (0.5, 1]
             epsilon_bar, H_bar = 1, 0
             delta = self.opt_acc_rate # https://mc-stan.org/docs/2_18/reference-manual/hmc-algorithm-parameters.html
             step_sizes[0] = epsilon
-        elif (self.adapt_step_size == False):
+        elif (self.adapt_step_size is False):
             epsilon = self._FindGoodEpsilon(theta[:, 0], joint_eval[0], grad)
         else:
             epsilon = self.adapt_step_size # if scalar then user specifies the step size
@@ -213,13 +213,13 @@ class NUTS(Sampler):
                 k, self._num_tree_node, epsilon, epsilon_bar)
             
             # adapt epsilon during burn-in using dual averaging
-            if (k <= Nb) and (self.adapt_step_size == True):
+            if (k <= Nb) and (self.adapt_step_size is True):
                 eta1 = 1/(k + t_0)
                 H_bar = (1-eta1)*H_bar + eta1*(delta - (alpha/n_alpha))
                 epsilon = np.exp(mu - (np.sqrt(k)/gamma)*H_bar)
                 eta = k**(-kappa)
                 epsilon_bar = np.exp(eta*np.log(epsilon) + (1-eta)*np.log(epsilon_bar))
-            elif (k == Nb+1) and (self.adapt_step_size == True):
+            elif (k == Nb+1) and (self.adapt_step_size is True):
                 epsilon = epsilon_bar   # fix epsilon after burn-in
             step_sizes[k] = epsilon
             
